@@ -384,10 +384,9 @@ def roundTailP (c : Ctx) (d : Cell) (res : Cond) (yd : Nat × Int) : Prog Cond :
   let r ← setExponentP c d none res [de, yd.2]
   pure (res ||| r)
 
-/-- `Rounder.Round(c, d, x, disableIfPrecisionZero)` (the rounder is `c.Rounding`).  The unreachable
+/-- `Rounder.Round` from `nd := x.NumDigits()` on (finite `x`, already copied into `d`).  The unreachable
 `diff < MinExponent` exit (inside `diff > 0`) is omitted. -/
-def roundP (c : Ctx) (d : Cell) (x : Src) (disableIfPrecisionZero : Bool) : Prog Cond := do
-  setDec d x
+def roundFinP (c : Ctx) (d : Cell) (x : Src) (disableIfPrecisionZero : Bool) : Prog Cond := do
   let nd ← numDigitsP x
   let xs ← signP x
   if disableIfPrecisionZero && c.prec == 0 then do
@@ -420,6 +419,15 @@ def roundP (c : Ctx) (d : Cell) (x : Src) (disableIfPrecisionZero : Bool) : Prog
       else do
         let de ← rdExp (.cell d)
         setExponentP c d (some nd) {} [de, 0]
+
+/-- `Rounder.Round(c, d, x, disableIfPrecisionZero)` (the rounder is `c.Rounding`):
+`d.Set(x); if x.Form != Finite { return 0 }; …` — infinities and NaNs are copied, not rounded.  (When `d == x`
+the read of `x.Form` comes after the copy, which is then a no-op.) -/
+def roundP (c : Ctx) (d : Cell) (x : Src) (disableIfPrecisionZero : Bool) : Prog Cond := do
+  setDec d x
+  let xf ← rdForm x
+  if xf != .finite then pure {}
+  else roundFinP c d x disableIfPrecisionZero
 
 /-! ## NaN handling -/
 
